@@ -606,6 +606,8 @@ Fixpoint sem (n : nat) (g : G) (ctx : env) (p : nat) (a : reg) {struct n} : opti
       | None => None
       end
   | Pratt atom ops => pratt_sem run n' atom ops ctx 0 p a
+  | GroupArr gs => group_sem run gs ctx p a [] []
+  | NestedIn _ => None                          (* not part of this specification: see Model/Nested.v *)
   end
   end.
 
